@@ -207,8 +207,18 @@ type violation struct {
 	msg    string
 }
 
-// runCase executes the case on the store, the model and the read-free twin.
-func runCase(c Case) *violation {
+// runCase executes the case; a panic inside the store (e.g. IAVL refusing to reopen) is a violation too.
+func runCase(c Case) (v *violation) {
+	defer func() {
+		if r := recover(); r != nil {
+			v = &violation{"panic", fmt.Sprintf("the store panicked: %v", r)}
+		}
+	}()
+	return runCase0(c)
+}
+
+// runCase0 executes the case on the store, the model and the read-free twin.
+func runCase0(c Case) *violation {
 	s := newSut(c.Rot, c.Gas)
 	twin := newSut(c.Rot, c.Gas)
 	m := newModel()
